@@ -191,6 +191,11 @@ def main():
     counts, miss = gen_c02_kinds.generate(REPO)
     vals.update(counts)      # NOISE_KIND_TABLE_SIZE
     missing += list(miss)
+    # C15: the dispatch tables of the Kademlia QueryEngine -> coq/gen/KadDispatch.v (sibling script)
+    import gen_c15_dispatch
+    counts, miss = gen_c15_dispatch.generate(REPO)
+    vals.update(counts)      # C15_QUERY_TYPES, C15_MESSAGE_KINDS, C15_QUERY_ACTIONS
+    missing += list(miss)
     str_names = []
     for name, path, rx in STR_CONSTS:
         try:
